@@ -14,9 +14,12 @@
    now - (time of the most recent addition) <= validity" (the code's comparison
    is `now.Sub(t) > validity` => dropped).
 
-   The model is sequential (every operation atomic), so the documented race of
-   the background sweep with a concurrent re-addition of an already expired
-   record cannot occur in it and no hypothesis about it is needed. *)
+   The model of sections 1-6 is sequential (every operation atomic), so the
+   documented race of the background sweep with a concurrent re-addition of an
+   already expired record cannot occur in it and no hypothesis about it is
+   needed.  Section 7 proves the Close clause on an interleaving model
+   (Model/ProvidersClose.v, lemmas: Proofs/ProvidersCloseProofs.v) for calls that
+   are in flight when Close runs. *)
 From Verif.Lib Require Import GoSem Bits.
 From Verif.Model Require Import Providers.
 From Verif.Proofs Require Import ProvidersProofs.
@@ -131,3 +134,132 @@ Example c07_nonvacuous :
      [{| pi_id := 7; pi_addrs := [1; 9] |}; {| pi_id := 8; pi_addrs := [1] |}; {| pi_id := 7; pi_addrs := [] |}]
    = (GStored, [(7, [1])])).
 Proof. vm_compute. repeat split; reflexivity. Qed.
+
+(* ======================================================================== *)
+(* 7. The Close fence under concurrency.  The theorems above are about
+   sequential histories, so their Close clause only speaks of calls made after
+   Close returned.  Model/ProvidersClose.v is the interleaving model of the lock
+   discipline of AddProvider / GetProviders / gcLoop / Close: client calls
+   (pm.mu.Lock -> read pm.stopped under mu -> datastore calls under mu ->
+   Unlock), the sweep goroutine (select tick/ctx.Done; collectExpired touches
+   the datastore WITHOUT mu, testing ctx.Err() between rows), the ticker, and
+   one Close call (cancel; <-pm.closed; mu.Lock; stopped = true; Unlock;
+   return).  Every theorem quantifies over the number of client calls and the
+   datastore calls each makes when the store is open ([progs], any lists), the deletes
+   of every sweep ([todo]), the number of ticks ([nticks]) and the SCHEDULE
+   ([sched]: any list of thread ids, a thread that is not enabled is skipped).
+   [clock] counts the steps taken; a logged datastore call carries the index of
+   its step; [close_ret] is the index of the step at which Close returned. *)
+From Verif.Model Require Import ProvidersClose.
+From Verif.Proofs Require Import ProvidersCloseProofs.
+Local Close Scope N_scope.
+Local Open Scope nat_scope.
+
+(* 7.1 (i) No datastore call - by a client call or by the sweep - happens at a
+   step after the step at which Close returned. *)
+Theorem c07_no_datastore_call_after_close_returned :
+  forall (progs todo : list (list dsop)) (nticks : nat) (sched : list tid),
+    let st := ProvidersClose.run (ProvidersClose.init progs todo nticks) sched in
+    forall r, close_ret st = Some r ->
+    forall n t o, In (n, t, o) (log st) -> n < r.
+Proof. exact no_ds_after_close. Qed.
+Print Assumptions c07_no_datastore_call_after_close_returned.
+
+(* ... and when Close has returned nobody is inside a datastore section any
+   more: the sweep goroutine has exited, the flag is set, no client call is at
+   (or between) its datastore calls. *)
+Theorem c07_close_returns_only_when_quiet :
+  forall progs todo nticks sched,
+    let st := ProvidersClose.run (ProvidersClose.init progs todo nticks) sched in
+    close_ret st <> None ->
+    ProvidersClose.gc st = GExited /\ ProvidersClose.stopped st = true /\
+    forall i c ops, nth_error (clients st) i = Some c -> c_pc c <> CDs ops.
+Proof. exact close_returned_quiet. Qed.
+Print Assumptions c07_close_returns_only_when_quiet.
+
+(* 7.2 (ii) Every client call made (step index s) after Close returned (step
+   index r) never enters its datastore section and, when it has returned, has
+   returned ErrClosed. *)
+Theorem c07_calls_after_close_report_closed :
+  forall progs todo nticks sched,
+    let st := ProvidersClose.run (ProvidersClose.init progs todo nticks) sched in
+    forall r i c s, close_ret st = Some r -> nth_error (clients st) i = Some c ->
+      c_start c = Some s -> r < s ->
+      closed_or_pending (c_pc c) /\ (forall res, c_pc c = CDone res -> res = CRClosed).
+Proof. exact late_calls_closed. Qed.
+Print Assumptions c07_calls_after_close_report_closed.
+
+(* 7.3 (iii) Close can always complete.  In every reachable state in which
+   Close has been called and has not returned, the thread Close is waiting for
+   ([close_blocker]: Close itself, the sweep goroutine while Close waits for
+   pm.closed, the holder of mu while Close waits for mu) is enabled: no
+   deadlock between Close, the sweep and the clients. *)
+Theorem c07_close_never_blocked_forever :
+  forall progs todo nticks sched,
+    let st := ProvidersClose.run (ProvidersClose.init progs todo nticks) sched in
+    cl st <> XInit -> close_ret st = None -> enabled st (close_blocker st) = true.
+Proof. exact close_blocker_enabled. Qed.
+Print Assumptions c07_close_never_blocked_forever.
+
+(* A run that cannot be extended (no thread enabled) has Close returned ... *)
+Theorem c07_maximal_runs_have_close_returned :
+  forall progs todo nticks sched,
+    let st := ProvidersClose.run (ProvidersClose.init progs todo nticks) sched in
+    (forall t, enabled st t = false) -> close_ret st <> None.
+Proof. exact maximal_runs_closed. Qed.
+Print Assumptions c07_maximal_runs_have_close_returned.
+
+(* ... and every schedule takes at most [fuel (init ...)] steps (a number
+   computed from the sizes of the calls, the sweeps and the tick count): with
+   the previous theorem, every schedule that keeps scheduling enabled threads
+   reaches the return of Close within that many steps. *)
+Theorem c07_steps_bounded :
+  forall progs todo nticks sched,
+    clock (ProvidersClose.run (ProvidersClose.init progs todo nticks) sched)
+    <= fuel (ProvidersClose.init progs todo nticks).
+Proof. exact steps_bounded. Qed.
+Print Assumptions c07_steps_bounded.
+
+(* From any reachable state in which Close has been called: scheduling the
+   thread Close waits for, again and again, makes Close return within
+   [fuel st] steps (the fair schedule Close needs, made explicit). *)
+Theorem c07_close_returns_when_its_blockers_run :
+  forall progs todo nticks sched,
+    let st := ProvidersClose.run (ProvidersClose.init progs todo nticks) sched in
+    cl st <> XInit ->
+    exists k, k <= fuel st /\ close_ret (drive k st) <> None.
+Proof. exact close_returns_when_blockers_run. Qed.
+Print Assumptions c07_close_returns_when_its_blockers_run.
+
+(* Non-vacuity of 7: client 0 (AddProvider: one Put) is inside its datastore
+   section when Close is called; the sweep goroutine exits; Close is then NOT
+   enabled (it waits for mu) until client 0 has made its Put and unlocked; it
+   returns at step 18, after the Put (step 7); client 1 (GetProviders: Query +
+   Delete), called at step 19, returns ErrClosed without touching the datastore;
+   client 2 was queued on mu behind client 0 when Close was called, wins mu
+   before Close and still completes its Query (step 12) before Close returns;
+   afterwards no thread is enabled. *)
+Definition ex_progs : list (list dsop) := [[DPut]; [DQuery; DDelete]; [DQuery]].
+Definition ex_pre : list tid :=
+  [TClient 0; TClient 0; TClient 0;          (* call, Lock, check: client 0 at its Put *)
+   TClient 2; TClient 2;                     (* client 2 called; blocked in Lock (second entry is skipped) *)
+   TClose; TGcDone; TClose].                 (* cancel; the sweep goroutine exits; Close at mu.Lock *)
+Definition ex_post : list tid :=
+  [TClose;                                   (* skipped: not enabled *)
+   TClient 0; TClient 0; TClient 0;          (* Put, leave the section, Unlock *)
+   TClient 2; TClient 2; TClient 2; TClient 2; TClient 2;   (* client 2 wins mu: Lock, check, Query, leave, Unlock *)
+   TClose; TClose; TClose; TClose;           (* Lock, stopped = true, Unlock, return *)
+   TClient 1; TClient 1; TClient 1; TClient 1].   (* call, Lock, check (stopped), Unlock *)
+Example c07_close_fence_nonvacuous :
+  let mid := ProvidersClose.run (ProvidersClose.init ex_progs [] 0) ex_pre in
+  let fin := ProvidersClose.run mid ex_post in
+  (option_map c_pc (nth_error (clients mid) 0) = Some (CDs [DPut])) /\
+  (cl mid = XLock /\ enabled mid TClose = false /\ close_blocker mid = TClient 0) /\
+  (log fin = [(12, TClient 2, DQuery); (7, TClient 0, DPut)]) /\
+  (close_ret fin = Some 18) /\
+  (map c_pc (clients fin) = [CDone CROk; CDone CRClosed; CDone CROk]) /\
+  (option_map c_start (nth_error (clients fin) 1) = Some (Some 19)) /\
+  (forall t, enabled fin t = false).
+Proof.
+  vm_compute. repeat split; try reflexivity. intros t; destruct t as [[|[|[|[|i]]]]| | | | |]; reflexivity.
+Qed.
